@@ -355,7 +355,8 @@ func report(cfg *Config, ld *Loaded, db *SpecDB, results []*UnitResult, loadS, g
 	canaryBad := 0
 	for _, name := range order {
 		s := byName[name]
-		if ks := propKinds[cfg.Prop]; ks != nil && len(cfg.Funcs) == 0 && !ks[s.Kind] {
+		if ks := propKinds[cfg.Prop]; ks != nil && len(cfg.Funcs) == 0 && !ks[s.Kind] && !strings.Contains(s.Name, "/"+cfg.Prop+":") {
+			// (a functional clause written FOR the sweep property carries its id as label prefix, e.g. ensures[C07:...])
 			// sweep properties (no panic): only the safety obligations of the tagged units belong to the property; their
 			// functional postconditions are decided under the properties they are written for
 			continue
